@@ -13,6 +13,35 @@ whether `Next` drains the data channel before it reports the end is `Gen.Pipe.ne
 Hand-written (tied by the conformance check in `harness-sched/c10`): the meaning of a ready arm
 (Go channel semantics: buffered send/receive, rendez-vous when the capacity is 0, `default` only
 when nothing else is ready, closed channels always ready), and the ghost logs.
+
+## Polling and parking (the runtime semantics of `select` that is modelled)
+
+A call that arrives at a `select` first *polls* its arms. If an arm can proceed it fires (label
+`sender i a` / `recv a`; any of several ready arms). If none can: a `select` with a `default` takes the
+`default`; a `select` without one — the `select` of `Send`, the outer `select` of `Next` — *parks*: it puts
+itself into the wait queues of its channels (label `park i` / `parkRecv`, one atomic step, as in the Go
+runtime where poll and enqueue happen under the channel locks). The pcs `send m parked` / `next parked`
+carry that flag. A parked call fires an arm as soon as one becomes ready (it is woken up).
+
+Rendez-vous on the unbuffered data channel (label `handoff i`): the polling side must find its partner
+*in the wait queue*, i.e. exactly one of the two calls is parked (`canHandoff`). Hence
+* two polling calls never meet directly: one of them parks first, the other one's poll then finds it
+  (two steps — this is how a blocking `Send` and a blocking `Next` meet);
+* in particular the two *non-blocking* selects — the second `select` of `TrySend` (`try2`) and the drain
+  `select` of `Next` (`drain`) — can never rendez-vous with each other: neither ever parks, both take
+  their `default` (`TrySend` returns `false`, `Next` reports the end);
+* `TrySend` on an unbuffered pipe succeeds iff a `Next` is parked, the drain receives from an unbuffered
+  pipe iff a `Send` is parked.
+`startSend`/`startNext` only put the call *at* its `select` (not yet polled), so "the goroutine was
+started but has not reached the `select`" is covered by delaying the first internal step of the call.
+
+Remaining abstractions (all *over*-approximations — the LTS has more schedules than the runtime, every
+runtime schedule is matched by an LTS schedule with the same results): a parked sender completes its
+send by an own step when there is room in the buffer (the runtime lets the receiver that frees the
+slot move the oldest parked sender's value in: wait queues are FIFO, the LTS lets any parked or
+polling sender take the slot); a parked receiver takes a value from the buffer by an own step after
+the sender buffered it (the runtime hands it over directly); both calls of a rendez-vous return in
+the `handoff` step (the runtime wakes the parked one, which returns a little later with the same result).
 -/
 namespace Juniper.Model.Pipe
 open Juniper.Facts
@@ -29,7 +58,7 @@ structure Msg where
 /-- Program counter of a sender goroutine. -/
 inductive SPc where
   | idle
-  | send (m : Msg)   -- parked in the `select` of `Send`
+  | send (m : Msg) (parked : Bool)   -- at the `select` of `Send`: polling (`false`) or parked in the wait queues (`true`)
   | try1 (m : Msg)   -- at the first `select` of `TrySend`
   | try2 (m : Msg)   -- at the second `select` of `TrySend`
   deriving DecidableEq, Repr
@@ -37,7 +66,7 @@ inductive SPc where
 /-- Program counter of the receiver. -/
 inductive RPc where
   | idle
-  | next    -- parked in the `select` of `pipeStream.Next`
+  | next (parked : Bool)   -- at the `select` of `pipeStream.Next`: polling (`false`) or parked (`true`)
   | drain   -- at the nested non-blocking `select` of the `<-s.senderDone` arm
   deriving DecidableEq, Repr
 
@@ -95,26 +124,45 @@ inductive Label where
   | recv (a : Arm)
   -- internal: rendez-vous on the unbuffered data channel between sender `i` and the receiver
   | handoff (i : Nat)
+  -- internal: the poll of the blocking `select` of sender `i`'s `Send` found nothing ready: it parks
+  | park (i : Nat)
+  -- internal: the poll of the blocking `select` of `Next` found nothing ready: it parks
+  | parkRecv
   deriving DecidableEq, Repr
 
 def Label.internal : Label → Bool
-  | .sender .. | .recv .. | .handoff .. => true
+  | .sender .. | .recv .. | .handoff .. | .park .. | .parkRecv => true
   | _ => false
 
 def SPc.msg? : SPc → Option Msg
   | .idle => none
-  | .send m | .try1 m | .try2 m => some m
+  | .send m _ | .try1 m | .try2 m => some m
+
+/-- The call is parked in the wait queues of its channels (only the blocking `select` of `Send` parks). -/
+def SPc.parked : SPc → Bool
+  | .send _ p => p
+  | _ => false
+
+/-- The receiver is parked (only the outer, blocking `select` of `Next` parks). -/
+def RPc.parked : RPc → Bool
+  | .next p => p
+  | _ => false
+
+/-- The receiver is at the outer `select` of `Next`. -/
+def RPc.isNext : RPc → Bool
+  | .next _ => true
+  | _ => false
 
 /-- The `select` table a sender goroutine is parked in. -/
 def tableOf : SPc → List Arm
   | .idle => []
-  | .send _ => sendArms
+  | .send _ _ => sendArms
   | .try1 _ => trySendArms1
   | .try2 _ => trySendArms2
 
 def bodiesOf : SPc → List (Arm × List String)
   | .idle => []
-  | .send _ => sendBodies
+  | .send _ _ => sendBodies
   | .try1 _ => trySendBodies1
   | .try2 _ => trySendBodies2
 
@@ -130,7 +178,7 @@ def SPc.after (pc : SPc) (a : Arm) : SPc :=
 
 def rtableOf : RPc → List Arm
   | .idle => []
-  | .next => nextArms
+  | .next _ => nextArms
   | .drain => nextDrainArms
 
 /-- Readiness of a non-default arm of a sender's select, rendez-vous not counted. -/
@@ -146,20 +194,28 @@ def rReady (st : State) : Arm → Bool
       (ch == chSenderDone && st.senderDone)
   | _ => false
 
-/-- The sender is parked in a select that offers a send on the data channel. -/
+/-- The sender is at a select that offers a send on the data channel. -/
 def offers (sd : Sender) : Bool := (tableOf sd.pc).contains (.send chData)
 
-/-- The receiver is parked in a select that accepts a value from the data channel. -/
+/-- The receiver is at a select that accepts a value from the data channel. -/
 def accepts (st : State) : Bool := (rtableOf st.rpc).contains (.recv chData)
 
-/-- Rendez-vous between `sd` and the receiver is possible. -/
-def canHandoff (st : State) (sd : Sender) : Bool := st.cap == 0 && offers sd && accepts st
+/-- Rendez-vous between `sd` and the receiver is possible: the channel is unbuffered, one side offers,
+the other accepts, and **exactly one of the two is parked** — the polling side finds its partner in the
+channel's wait queue. Two polling selects do not see each other (Go: a non-blocking send succeeds only
+if a receiver is waiting in `recvq`, a non-blocking receive only if a sender is waiting in `sendq`; the
+poll of a blocking select likewise), two parked ones cannot exist on an unbuffered channel
+(`Proofs/PipeInv.lean`, `Inv.queue`). -/
+def canHandoff (st : State) (sd : Sender) : Bool :=
+  st.cap == 0 && offers sd && accepts st && (sd.pc.parked != st.rpc.parked)
 
-/-- `default` of a sender's select: only when no other arm can proceed. -/
+/-- The poll of a sender's select finds nothing that can proceed: a select with a `default` takes it,
+the blocking select of `Send` parks. -/
 def sDefaultReady (st : State) (sd : Sender) : Bool :=
   (tableOf sd.pc).all (fun a => !sReady st sd a) && !canHandoff st sd
 
-/-- `default` of the receiver's select. -/
+/-- The poll of the receiver's select finds nothing that can proceed (`default` of the drain; the outer
+select of `Next` parks). -/
 def rDefaultReady (st : State) : Bool :=
   (rtableOf st.rpc).all (fun a => !rReady st a) && !(st.senders.any (canHandoff st))
 
@@ -183,10 +239,10 @@ def startCall (st : State) (i : Nat) (v : Int) (c : Bool) (mk : Msg → SPc) : O
     else none
 
 def step (st : State) : Label → Option State
-  | .startSend i v c => startCall st i v c .send
+  | .startSend i v c => startCall st i v c (fun m => .send m false)
   | .startTry i v c => startCall st i v c .try1
   | .startNext c =>
-    if st.rpc = .idle ∧ st.streamDone = false then some { st with rpc := .next, rctx := c } else none
+    if st.rpc = .idle ∧ st.streamDone = false then some { st with rpc := .next false, rctx := c } else none
   | .cancelSender i =>
     match st.senders[i]? with
     | none => none
@@ -235,13 +291,23 @@ def step (st : State) : Label → Option State
             | [] => none
             | m :: rest => some { st with buf := rest, delivered := st.delivered ++ [m], rpc := .idle }
           else if ch == chSenderDone then
-            if st.rpc = .next ∧ nextDrains = true then some { st with rpc := .drain }
+            if (st.rpc.isNext && nextDrains) = true then some { st with rpc := .drain }
             else some (reportEnd st)
           else some { st with rpc := .idle }
         else none
       | .dflt => if st.rpc = .drain ∧ rDefaultReady st = true then some (reportEnd st) else none
       | .send _ => none
     else none
+  | .park i =>
+    match st.senders[i]? with
+    | none => none
+    | some sd =>
+      match sd.pc with
+      | .send m false =>
+        if sDefaultReady st sd then some (st.setSender i { sd with pc := .send m true }) else none
+      | _ => none
+  | .parkRecv =>
+    if st.rpc = .next false ∧ rDefaultReady st = true then some { st with rpc := .next true } else none
 
 def init (n : Nat) (bufferSize : Nat) : State :=
   { cap := (chanCap bufferSize).toNat, senders := List.replicate n {} }
@@ -263,7 +329,7 @@ of the theorems) -/
 
 /-- The step reports the end / the close error to the receiver. -/
 def reportsEnd (st : State) : Label → Bool
-  | .recv (.recv ch) => ch == chSenderDone && !(st.rpc = .next ∧ nextDrains = true)
+  | .recv (.recv ch) => ch == chSenderDone && !(st.rpc.isNext && nextDrains)
   | .recv .dflt => true
   | _ => false
 
@@ -274,62 +340,129 @@ def deliversValue : Label → Bool
   | _ => false
 
 
-/-! ## Results of the calls, as the harness canonicalises them (`nil ctx closed err true false end
-v<value>`). The value a call returns when an arm fires is read off the regenerated arm body; a body
-this model does not know yields `?`, which no observation matches. -/
+/-! ## Results of the calls
 
-def bodyResult (st : State) (body : Option (List String)) (head : Option Msg) : String :=
+What a call returns when an arm fires is read off the regenerated arm body; a body this model does
+not know yields `unknown`, which no observation matches. `Res.token` is the spelling the harness
+uses (`nil ctx closed err true false end v<value>`). -/
+
+/-- Canonical result of a call. -/
+inductive Res where
+  | nil       -- `Send`: `nil`
+  | ctx       -- the context's error
+  | closed    -- `ErrClosedPipe`
+  | err       -- the (non-nil) error the sender was closed with
+  | tru       -- `TrySend`: `(true, nil)`
+  | fls       -- `TrySend`: `(false, nil)`
+  | fin       -- `Next`: `End`
+  | val (v : Int)   -- `Next`: `(v, nil)`
+  | unknown
+  deriving DecidableEq, Repr
+
+/-- Which call returns. -/
+inductive Who where
+  | sender (i : Nat)
+  | recv
+  deriving DecidableEq, Repr
+
+def Res.token : Res → String
+  | .nil => "nil" | .ctx => "ctx" | .closed => "closed" | .err => "err" | .tru => "true" | .fls => "false"
+  | .fin => "end" | .val v => s!"v{v}" | .unknown => "?"
+
+def showCompletion : Who × Res → String
+  | (.sender i, r) => s!"s{i}={r.token}"
+  | (.recv, r) => s!"n={r.token}"
+
+def bodyResult (st : State) (body : Option (List String)) (head : Option Msg) : Res :=
   match body with
-  | some ["return ctx.Err()"] => "ctx"
-  | some ["return ErrClosedPipe"] => "closed"
-  | some ["return *s.senderErr"] => if st.senderErr then "err" else "nil"
-  | some ["return nil"] => "nil"
-  | some ["return false, ctx.Err()"] => "ctx"
-  | some ["return false, ErrClosedPipe"] => "closed"
-  | some ["return false, *s.senderErr"] => if st.senderErr then "err" else "false"
-  | some ["return true, nil"] => "true"
-  | some ["return false, nil"] => "false"
-  | some ["return zero, ctx.Err()"] => "ctx"
+  | some ["return ctx.Err()"] => .ctx
+  | some ["return ErrClosedPipe"] => .closed
+  | some ["return *s.senderErr"] => if st.senderErr then .err else .nil
+  | some ["return nil"] => .nil
+  | some ["return false, ctx.Err()"] => .ctx
+  | some ["return false, ErrClosedPipe"] => .closed
+  | some ["return false, *s.senderErr"] => if st.senderErr then .err else .fls
+  | some ["return true, nil"] => .tru
+  | some ["return false, nil"] => .fls
+  | some ["return zero, ctx.Err()"] => .ctx
   | some ["bind item:=", "return item, nil"] =>
     match head with
-    | some m => s!"v{m.val}"
-    | none => "?"
-  | _ => "?"
+    | some m => .val m.val
+    | none => .unknown
+  | _ => .unknown
 
 /-- What `Next` returns when it reports: the statements after the drain must be the known ones. -/
-def endResult (st : State) : String :=
+def endResult (st : State) : Res :=
   if nextEndStmts == ["err := *s.senderErr", "if err != nil {", "return zero, err", "}", "return zero, End"] then
-    (if st.senderErr then "err" else "end")
-  else "?"
+    (if st.senderErr then .err else .fin)
+  else .unknown
 
 def rbodiesOf : RPc → List (Arm × List String)
   | .idle => []
-  | .next => nextBodies
+  | .next _ => nextBodies
   | .drain => nextDrainBodies
 
-/-- The calls that return in the step `st --l-->`, with their results (`s<i>=…`, `n=…`). -/
-def completions (st : State) (l : Label) : List String :=
+/-- The calls that return in the step `st --l-->`, with their results. A call returns in the step in
+which the arm it fires has a non-empty body (every such body ends in `return`: control skeleton); the
+`default` of the drain has an empty body and falls through to the report (`nextEndStmts`). -/
+def completions (st : State) (l : Label) : List (Who × Res) :=
   match l with
   | .sender i a =>
     match st.senders[i]? with
     | none => []
     | some sd =>
-      if sd.pc.after a = .idle then [s!"s{i}={bodyResult st ((bodiesOf sd.pc).lookup a) none}"] else []
+      if sd.pc.after a = .idle then [(.sender i, bodyResult st ((bodiesOf sd.pc).lookup a) none)] else []
   | .handoff i =>
     match st.senders[i]? with
     | none => []
     | some sd =>
       (if sd.pc.after (.send chData) = .idle then
-        [s!"s{i}={bodyResult st ((bodiesOf sd.pc).lookup (.send chData)) none}"] else []) ++
-      [s!"n={bodyResult st ((rbodiesOf st.rpc).lookup (.recv chData)) sd.pc.msg?}"]
+        [(Who.sender i, bodyResult st ((bodiesOf sd.pc).lookup (.send chData)) none)] else []) ++
+      [(.recv, bodyResult st ((rbodiesOf st.rpc).lookup (.recv chData)) sd.pc.msg?)]
   | .recv a =>
-    if reportsEnd st l then [s!"n={endResult st}"]
-    else match a with
-      | .recv ch =>
-        if ch == chSenderDone then []   -- moved on to the drain
-        else [s!"n={bodyResult st ((rbodiesOf st.rpc).lookup a) st.buf.head?}"]
-      | _ => []
+    match a with
+    | .recv ch =>
+      if ch == chSenderDone then
+        (if (st.rpc.isNext && nextDrains) = true then [] /- moved on to the drain -/ else [(.recv, endResult st)])
+      else [(.recv, bodyResult st ((rbodiesOf st.rpc).lookup a) st.buf.head?)]
+    | .dflt =>
+      if (rbodiesOf st.rpc).lookup .dflt == some [] then [(.recv, endResult st)]
+      else [(.recv, bodyResult st ((rbodiesOf st.rpc).lookup .dflt) none)]
+    | .send _ => []
   | _ => []
+
+/-- The value-carrying calls of senders that return *success* in the step `st --l-->`: the message of
+a `Send` that returns `nil`, of a `TrySend` that returns `true`. -/
+def okReturns (st : State) (l : Label) : List Msg :=
+  match l with
+  | .sender i _ | .handoff i =>
+    match st.senders[i]? with
+    | none => []
+    | some sd =>
+      match sd.pc.msg? with
+      | none => []
+      | some m =>
+        if (completions st l).contains (.sender i, .nil) || (completions st l).contains (.sender i, .tru)
+        then [m] else []
+  | _ => []
+
+/-- The messages whose `Send`/`TrySend` returned success **before the sender was closed**, along the run
+`ls` from `st` (in the order of the returns): the "values whose Send returned nil before Close" of the
+property text, read off the results of the calls. -/
+def okBeforeClose (st : State) : List Label → List Msg
+  | [] => []
+  | l :: ls =>
+    match step st l with
+    | none => []
+    | some st' => (if st.senderDone then [] else okReturns st l) ++ okBeforeClose st' ls
+
+/-- All calls that return along the run `ls` from `st`, with their results, in order. -/
+def runCompletions (st : State) : List Label → List (Who × Res)
+  | [] => []
+  | l :: ls =>
+    match step st l with
+    | none => []
+    | some st' => completions st l ++ runCompletions st' ls
 
 /-! ## Static facts about the regenerated tables that the model relies on -/
 
@@ -342,11 +475,12 @@ def tablesKnown : Bool :=
   (nextDrainArms == [] || sameArms nextDrainArms [.recv chData, .dflt]) &&
   sendSelects == 1 && trySendSelects == 2 && nextSelects == (if nextDrains then 2 else 1)
 
-/-- `Pipe` hands the same three channels and the same error cell to both halves, the two broadcast
-channels are unbuffered, `Close` stores the error before it closes `senderDone`. -/
+/-- `Pipe` hands the same three channels and the same error cell to both halves, the data channel is
+`make(chan T, bufferSize)` (its capacity expression is `chanCap`), the two broadcast channels are unbuffered, `Close` stores the error before it closes `senderDone`. -/
 def wiringOK : Bool :=
   senderWiring == [("c", "c"), ("senderDone", "senderDone"), ("senderErr", "senderErr"), ("streamDone", "streamDone")] &&
   receiverWiring == senderWiring &&
+  makes.lookup "c" == some "make(chanT,bufferSize)" &&
   makes.lookup "senderDone" == some "make(chanstruct{})" &&
   makes.lookup "streamDone" == some "make(chanstruct{})" &&
   makes.lookup "senderErr" == some "new(error)" &&
